@@ -18,12 +18,20 @@ def build_race_plan(rng, tier):
 	ports = [5700 + 400 * k for k in range(10)]
 	rng.shuffle(ports)
 	A, B, C, D = 935000, 890000, 935200, 890200
+	# the sniffers are either transceivers of their own (then the shared clock never stops) or
+	# children of the MS, whose children are not managed by their parent and own no clock link
+	# (then powering off BTS and MS stops the clock generator while a tick may be in progress)
+	own_clock = rng.random() < 0.5
 	trx = [
 		{"name": "BTS", "addr": "127.0.0.1", "port": ports[0], "idx": 0, "child_mgt": True},
 		{"name": "MS", "addr": "127.0.0.1", "port": ports[1], "idx": 0, "child_mgt": False},
-		{"name": "SNB", "addr": "127.0.0.1", "port": ports[2], "idx": 0, "child_mgt": True},   # sniffs the BTS
-		{"name": "SNM", "addr": "127.0.0.1", "port": ports[3], "idx": 0, "child_mgt": True},   # sniffs the MS
 	]
+	if own_clock:
+		trx += [{"name": "SNB", "addr": "127.0.0.1", "port": ports[2], "idx": 0, "child_mgt": True},   # sniffs the BTS
+			{"name": "SNM", "addr": "127.0.0.1", "port": ports[3], "idx": 0, "child_mgt": True}]   # sniffs the MS
+	else:
+		trx += [{"name": "SNB", "addr": "127.0.0.1", "port": ports[1], "idx": 1, "child_mgt": True},
+			{"name": "SNM", "addr": "127.0.0.1", "port": ports[1], "idx": 2, "child_mgt": True}]
 	child = rng.random() < 0.3
 	if child:
 		trx.append({"name": "BC1", "addr": "127.0.0.1", "port": ports[0], "idx": 1, "child_mgt": True})
@@ -67,6 +75,7 @@ def build_race_plan(rng, tier):
 	senders = [0, 1] + ([4] if child else [])
 	nraces = rng.choice([1, 1, 2, 3])
 	for _ in range(nraces):
+		back = []
 		# some bursts already queued for the coming frames
 		for _k in range(rng.choice([0, 1, 2, 4, 8])):
 			s = rng.choice(senders)
@@ -81,6 +90,10 @@ def build_race_plan(rng, tier):
 				"kind": rng.choice(["NB", "RAND"]), "bseed": rng.randrange(1 << 30), "ver": ver[s]}
 		elif r < 0.65:
 			op = {"op": "cmd", "trx": rng.choice([0, 1, 1]), "text": "POWEROFF"}
+			if not own_clock and rng.random() < 0.6:
+				# the other clock owner is already off: this POWEROFF stops the clock generator
+				ops.append({"op": "cmd", "trx": 1 - op["trx"], "text": "POWEROFF", "dt": 1000})
+				back.append(1 - op["trx"])
 		elif r < 0.75:
 			v = rng.choice([0, 1])
 			t = rng.choice([0, 1])
@@ -100,6 +113,10 @@ def build_race_plan(rng, tier):
 			if t == 1 and ms_hops and rng.random() < 0.7:
 				ops.append({"op": "cmd", "trx": 1, "dt": 2 * P_NS, "text": "SETFH 0 0 %d %d" % (A, B)})
 			ops.append({"op": "cmd", "trx": t, "text": "POWERON", "dt": rng.choice([P_NS, 2 * P_NS])})
+		for t in back:
+			if t == 1 and ms_hops:
+				ops.append({"op": "cmd", "trx": 1, "dt": P_NS, "text": "SETFH 0 0 %d %d" % (A, B)})
+			ops.append({"op": "cmd", "trx": t, "text": "POWERON", "dt": P_NS})
 		ops.append({"op": "idle", "dt": rng.randint(1, 4) * P_NS})
 	ops.append({"op": "idle", "dt": 6 * P_NS})
 	start = rng.choice([0, 0, rng.randrange(HYPER), HYPER - 1 - rng.randrange(20)])
@@ -201,6 +218,20 @@ def check_race(history, cfg):
 					int(tnm.group(1)) if tnm else None, idx))
 		elif kind == "thread-death":
 			bad("C03.thread-death", thread=kw["thread"], exc=kw["exc"], msg=kw["msg"], where=kw["where"])
+	# every command read by the socket thread is answered before it reads the next datagram
+	pend = None
+	for idx, (t, kind, kw) in enumerate(history):
+		if kind == "recv":
+			T, iface = model.port_map.get(kw["port"], (None, None))
+			if pend is not None:
+				viols.append({"clause": "C05.race-no-response", "owners": ["C05"], "detail": {"request": repr(pend[1][:40])}})
+				pend = None
+			if iface == "ctrl" and kw["data"].startswith(b"CMD"):
+				pend = (kw["port"], kw["data"])
+		elif kind == "tx" and pend is not None and kw["sport"] == pend[0]:
+			pend = None
+	if pend is not None:
+		viols.append({"clause": "C05.race-no-response", "owners": ["C05"], "detail": {"request": repr(pend[1][:40]), "at": "end of run"}})
 	end_idx = len(history)
 	for b in bursts:
 		if b["a1"] is None:
@@ -290,7 +321,12 @@ def check_race(history, cfg):
 		if sn is None or sn >= len(model.trx):
 			return False
 		R, T = model.trx[sn], model.trx[S]
-		return R.running and R.fh is None and T.fh is None and R.rx is not None and R.rx == T.tx \
+		if T.fh is None:
+			tx = T.tx
+		else:  # hopping over channels that all share one Tx frequency is as good as fixed
+			txs = {p[1] for p in T.fh[2]}
+			tx = txs.pop() if len(txs) == 1 else None
+		return R.running and R.fh is None and tx is not None and R.rx == tx \
 			and not R.muted and not T.muted and R.drop_n == 0 and not R.fake_rssi
 
 	stats["unobservable"] = 0
@@ -316,7 +352,10 @@ def check_race(history, cfg):
 		if obs_em:
 			k, tick_no = obs_em[0]
 			stats["emitted"] += 1
-			if tick_no is None or ("emit", tick_no) not in allowed:
+			if allowed <= {"cleared"} and tick_no is not None:
+				viols.append({"clause": "C03.emitted-after-poweroff", "owners": ["C03", "C12"],
+					"detail": {"sender": model.trx[S].label(), "fn": b["fn"], "tn": b["tn"], "tick_fn": ticks[tick_no][2]}})
+			elif tick_no is None or ("emit", tick_no) not in allowed:
 				bad("C03.emitted-in-wrong-tick", sender=model.trx[S].label(), fn=b["fn"], tn=b["tn"],
 					tick_fn=ticks[tick_no][2] if tick_no is not None else None, allowed=sorted(str(a) for a in allowed)[:4])
 		elif obs_st:
